@@ -6863,3 +6863,332 @@ func extraC12RequestTextVerbatim(c *Ctx, r *Report) {
 		Old: "		if systemStr != \"\" {", New: "		if systemStr = strings.TrimSpace(systemStr); systemStr != \"\" {",
 		Edits: []Edit{{"internal/adapter/translator/anthropic/token_count.go", "	\"net/http\"\n", "	\"net/http\"\n	\"strings\"\n"}}})
 }
+
+// ---------- C16-R11: a (re)load builds every endpoint record from the configuration it was given ----------
+func init() {
+	registerExtra("C16", func(c *Ctx, r *Report) { extraReloadBuildsFresh(c, r, "C16-R11") })
+	registerExtra("C07", func(c *Ctx, r *Report) { extraReloadBuildsFresh(c, r, "C07-R16") })
+}
+
+func extraReloadBuildsFresh(c *Ctx, r *Report, rule string) {
+	r.Rule(rule, "in the endpoint repository's config loader every record placed in the map that becomes the repository's endpoint table is a struct built in that call (a composite literal filled from the configuration entry, C16-R4): a record carried over from the previous table keeps its old preserve_path flag, health-check URL and model URL when the new configuration changed exactly those", 1)
+	f := c.Fn("internal/adapter/discovery", "(*StaticEndpointRepository).LoadFromConfig")
+	if f == nil {
+		r.Unresolved(rule, "(*StaticEndpointRepository).LoadFromConfig")
+		return
+	}
+	n := 0
+	for _, g := range withAnon(f) {
+		eachInstr(g, func(in ssa.Instruction) {
+			mu, ok := in.(*ssa.MapUpdate)
+			if !ok {
+				return
+			}
+			mt, ok := mu.Map.Type().Underlying().(*types.Map)
+			if !ok || !isEndpointPtr(mt.Elem()) {
+				return
+			}
+			n++
+			key := fmt.Sprintf("%s:record#%d", fname(f), n)
+			bad := ""
+			seen := map[ssa.Value]bool{}
+			var leaf func(v ssa.Value, depth int)
+			leaf = func(v ssa.Value, depth int) {
+				if v == nil || depth == 0 || seen[v] || bad != "" {
+					return
+				}
+				seen[v] = true
+				switch x := v.(type) {
+				case *ssa.Alloc:
+					return
+				case *ssa.Phi:
+					for _, e := range x.Edges {
+						leaf(e, depth-1)
+					}
+				case *ssa.Call:
+					// a constructor in the package that returns a struct it allocated
+					if sc := x.Call.StaticCallee(); sc != nil && c.inRepo(sc) {
+						for _, rv := range flatResults(sc, 0) {
+							if _, isA := rv.(*ssa.Alloc); !isA {
+								bad = "the result of " + fname(sc) + ", which is not always a record it built"
+							}
+						}
+						return
+					}
+					bad = "the result of " + describeCall(&x.Call).String()
+				case *ssa.Extract, *ssa.Lookup:
+					bad = "a record looked up in an existing table"
+				case *ssa.UnOp:
+					if al, ok := x.X.(*ssa.Alloc); ok {
+						for _, s := range cellStores(al) {
+							leaf(s, depth-1)
+						}
+						return
+					}
+					bad = "a record loaded from existing state"
+				default:
+					bad = "not a record built in this call"
+				}
+			}
+			leaf(mu.Value, 5)
+			if bad == "" {
+				r.OK(rule, key, in.Pos(), "the stored record is a struct built in this call")
+			} else {
+				r.Bad(rule, key, in.Pos(), "the endpoint table receives "+bad+": settings of the new configuration that are not re-applied (preserve_path, health-check and model URLs) silently keep their old values")
+			}
+		})
+	}
+	if n == 0 {
+		r.Undecided(rule, "endpoint-table-stores", token.NoPos, "no store into a map of endpoint records found in the loader")
+	}
+	addMutants(Mutant{Prop: strings.Split(rule, "-")[0], Name: "reload-keeps-existing-record", File: "internal/adapter/discovery/repository.go", Rule: rule,
+		Old: "		// Resolve URL defaults using fallback hierarchy", New: "		r.mu.RLock()\n		prev, had := r.endpoints[urlString]\n		r.mu.RUnlock()\n		if had && prev.Name == cfg.Name && prev.Type == cfg.Type {\n			newEndpoints[urlString] = prev\n			continue\n		}\n		// Resolve URL defaults using fallback hierarchy"})
+}
+
+// ---------- C17-R11: the size validator allows a request only after the body-size check ----------
+func init() { registerExtra("C17", extraC17AllowAfterBodyCheck) }
+
+func extraC17AllowAfterBodyCheck(c *Ctx, r *Report) {
+	r.Rule("C17-R11", "in the security package, a function that calls the body-size check (the function comparing SecurityRequest.BodySize with the configured maximum, C17-R10) answers Allowed: true only on paths that went through that call: an earlier 'nothing to enforce' exit decided by another setting (the header limit being switched off, say) lets bodies over the limit through", 1)
+	const pp, pt = "internal/core/ports", "SecurityRequest"
+	// the body-size check functions
+	checks := map[*ssa.Function]bool{}
+	for _, f := range c.Funcs {
+		if !strings.Contains(fnPkgPath(f), "/adapter/security") {
+			continue
+		}
+		eachInstr(f, func(in ssa.Instruction) {
+			bo, ok := in.(*ssa.BinOp)
+			if !ok {
+				return
+			}
+			switch bo.Op {
+			case token.GTR, token.LSS, token.GEQ, token.LEQ:
+			default:
+				return
+			}
+			bx, by := mentionsField(bo.X, pp, pt, "BodySize", 3), mentionsField(bo.Y, pp, pt, "BodySize", 3)
+			if bx == by {
+				return
+			}
+			other := bo.Y
+			if by {
+				other = bo.X
+			}
+			if _, isK := other.(*ssa.Const); !isK {
+				checks[f] = true
+			}
+		})
+	}
+	n := 0
+	for _, f := range c.Funcs {
+		if f.Parent() != nil || !strings.Contains(fnPkgPath(f), "/adapter/security") || checks[f] {
+			continue
+		}
+		var callsCheck ssa.Instruction
+		eachInstr(f, func(in ssa.Instruction) {
+			if cc := getCall(in); cc != nil && checks[cc.StaticCallee()] {
+				callsCheck = in
+			}
+		})
+		if callsCheck == nil {
+			continue
+		}
+		isCheck := func(in ssa.Instruction) bool {
+			cc := getCall(in)
+			return cc != nil && checks[cc.StaticCallee()]
+		}
+		for _, ret := range returnsOf(f) {
+			// Allowed: true ?
+			allowed := false
+			for _, res := range ret.Results {
+				if !isNamed(res.Type(), "internal/core/ports", "SecurityResult") {
+					continue
+				}
+				if ld, ok := res.(*ssa.UnOp); ok {
+					if al, ok := ld.X.(*ssa.Alloc); ok {
+						for _, ref := range *al.Referrers() {
+							if fa, ok := ref.(*ssa.FieldAddr); ok && isField(fa, "internal/core/ports", "SecurityResult", "Allowed") {
+								for _, r2 := range *fa.Referrers() {
+									if st, ok := r2.(*ssa.Store); ok && instrDominates(st, ret) {
+										if k, ok := st.Val.(*ssa.Const); ok && k.Value != nil && k.Value.String() == "true" {
+											allowed = true
+										}
+									}
+								}
+							}
+						}
+					}
+				}
+			}
+			if !allowed {
+				continue
+			}
+			n++
+			key := fmt.Sprintf("%s:allow#%s", fname(f), retKey(c, f, ret))
+			if reachFromEntryAvoiding(f, ret, isCheck) {
+				r.Bad("C17-R11", key, ret.Pos(), "the validator can answer Allowed: true without having run the body-size check: a request whose declared body exceeds the limit is admitted on that path")
+			} else {
+				r.OK("C17-R11", key, ret.Pos(), "allowed only after the body-size check")
+			}
+		}
+	}
+	if n == 0 {
+		r.Undecided("C17-R11", "allowing-returns", token.NoPos, "no function that calls the body-size check and answers Allowed: true found")
+	}
+	addMutants(Mutant{Prop: "C17", Name: "limits-off-fast-path-uses-or", File: "internal/adapter/security/request_size_limit.go", Rule: "C17-R11",
+		Old: "	if err := sv.validateHeaderSize(req); err != nil {", New: "	if sv.maxHeaderSize <= 0 || sv.maxBodySize <= 0 {\n		return ports.SecurityResult{Allowed: true}, nil\n	}\n	if err := sv.validateHeaderSize(req); err != nil {"})
+}
+
+// ---------- C18-R14: a wrapper's Flush still works when two of the wrapper are stacked ----------
+func init() { registerExtra("C18", extraC18FlushNestingClosed) }
+
+func extraC18FlushNestingClosed(c *Ctx, r *Report) {
+	r.Rule("C18-R14", "in the Flush / FlushError method of a ResponseWriter wrapper, every interface the inner writer is type-asserted to in order to pass the flush on is implemented by the wrapper type itself: the application stacks the same logging wrapper twice on the proxy routes, so an inner writer is often another instance of the wrapper — asserting it to an interface the wrapper does not offer turns every flush into a silent no-op (or an error that aborts the translated stream)", 1)
+	rwI := httpIface(c, "ResponseWriter")
+	if rwI == nil {
+		r.Unresolved("C18-R14", "net/http.ResponseWriter")
+		return
+	}
+	n := 0
+	for _, f := range c.Funcs {
+		if f.Parent() != nil || !c.inRepo(f) || f.Signature.Recv() == nil || (f.Name() != "Flush" && f.Name() != "FlushError") {
+			continue
+		}
+		rt := f.Signature.Recv().Type()
+		pt := rt
+		if _, isPtr := rt.Underlying().(*types.Pointer); !isPtr {
+			pt = types.NewPointer(rt)
+		}
+		if !types.Implements(pt, rwI) {
+			continue
+		}
+		eachInstr(f, func(in ssa.Instruction) {
+			ta, ok := in.(*ssa.TypeAssert)
+			if !ok {
+				return
+			}
+			it, ok := ta.AssertedType.Underlying().(*types.Interface)
+			if !ok || it.NumMethods() == 0 {
+				return
+			}
+			// the asserted operand is the inner writer (a ResponseWriter-typed field of the receiver)
+			if !isNamed(ta.X.Type(), "net/http", "ResponseWriter") {
+				return
+			}
+			n++
+			key := fmt.Sprintf("%s:assert:%s", fname(f), types.TypeString(ta.AssertedType, func(p *types.Package) string { return p.Name() }))
+			if types.Implements(pt, it) {
+				r.OK("C18-R14", key, in.Pos(), "the wrapper itself offers the interface it expects of the inner writer: stacked wrappers keep flushing")
+			} else {
+				r.Bad("C18-R14", key, in.Pos(), "the wrapper forwards the flush only to inner writers with an interface it does not implement itself: with two wrappers stacked (as on every proxy route) the flush stops at the inner one and streamed chunks are no longer delivered as they arrive")
+			}
+		})
+	}
+	if n == 0 {
+		r.Undecided("C18-R14", "flush-forwarding", token.NoPos, "no Flush method of a ResponseWriter wrapper asserts its inner writer to an interface")
+	}
+	addMutants(Mutant{Prop: "C18", Name: "flush-only-through-flusherror", File: "internal/app/middleware/logging.go", Rule: "C18-R14",
+		Old: "	if flusher, ok := rw.ResponseWriter.(http.Flusher); ok {\n		flusher.Flush()", New: "	if flusher, ok := rw.ResponseWriter.(interface{ FlushError() error }); ok {\n		_ = flusher.FlushError()"})
+}
+
+// ---------- C19-R14: only a cancelled request excuses a stream error from being recorded as a failure ----------
+func init() { registerExtra("C19", extraC19StreamErrorExcuse) }
+
+func extraC19StreamErrorExcuse(c *Ctx, r *Report) {
+	r.Rule("C19-R14", "in the per-attempt functions the only test that lets a non-nil error of the relay (the error result of the function that streams the backend's body to the client) pass without RecordFailure is errors.Is(err, context.Canceled), directly or through a predicate that answers true for nothing else: the relay's error also carries the backend's read failures, so a predicate that counts ECONNRESET / EPIPE as 'the client went away' records a response the backend cut off as a success", 2)
+	isCanceledTest := func(call *ssa.Call, x ssa.Value) bool {
+		ci := describeCall(&call.Call)
+		if ci.Pkg != "errors" || ci.Name != "Is" || len(call.Call.Args) != 2 {
+			return false
+		}
+		if x != nil && call.Call.Args[0] != x {
+			return false
+		}
+		t := call.Call.Args[1]
+		if mi, ok := t.(*ssa.MakeInterface); ok {
+			t = mi.X
+		}
+		ld, ok := t.(*ssa.UnOp)
+		if !ok {
+			return false
+		}
+		g, ok := ld.X.(*ssa.Global)
+		return ok && g.Name() == "Canceled" && g.Pkg != nil && g.Pkg.Pkg.Path() == "context"
+	}
+	var onlyCanceled func(fn *ssa.Function, depth int) bool
+	onlyCanceled = func(fn *ssa.Function, depth int) bool {
+		if fn == nil || fn.Blocks == nil || depth == 0 || len(fn.Params) == 0 {
+			return false
+		}
+		for _, v := range flatResults(fn, 0) {
+			switch x := v.(type) {
+			case *ssa.Const:
+				if x.Value != nil && x.Value.String() == "true" {
+					// a constant true reached by short-circuit: the edge into it must be a Canceled test — approximated by
+					// requiring every errors.Is in the function to be a Canceled test (checked below)
+				}
+			case *ssa.Call:
+				if !isCanceledTest(x, nil) {
+					if sc := x.Call.StaticCallee(); sc == nil || !onlyCanceled(sc, depth-1) {
+						return false
+					}
+				}
+			default:
+				return false
+			}
+		}
+		ok := true
+		eachInstr(fn, func(in ssa.Instruction) {
+			if call, isCall := in.(*ssa.Call); isCall {
+				ci := describeCall(&call.Call)
+				if ci.Pkg == "errors" && (ci.Name == "Is" || ci.Name == "As") && !isCanceledTest(call, nil) {
+					ok = false
+				}
+				if ci.Pkg == "strings" {
+					ok = false
+				}
+			}
+		})
+		return ok
+	}
+	n := 0
+	for _, af := range attemptFuncs(c) {
+		eachInstr(af, func(in ssa.Instruction) {
+			ex, ok := in.(*ssa.Extract)
+			if !ok || ex.Type().String() != "error" {
+				return
+			}
+			call, ok := ex.Tuple.(*ssa.Call)
+			if !ok {
+				return
+			}
+			sig := call.Call.Signature()
+			if sig.Results().Len() < 2 || !isIntegerType(sig.Results().At(0).Type()) {
+				return // the relay returns (bytes written, …, error)
+			}
+			for _, ref := range *ex.Referrers() {
+				tc, ok := ref.(*ssa.Call)
+				if !ok || tc.Type().String() != "bool" {
+					continue
+				}
+				n++
+				key := fmt.Sprintf("%s:stream-error-excuse", fname(af))
+				switch {
+				case isCanceledTest(tc, ex):
+					r.OK("C19-R14", key, tc.Pos(), "only errors.Is(err, context.Canceled) excuses the relay's error")
+				case tc.Call.StaticCallee() != nil && onlyCanceled(tc.Call.StaticCallee(), 3):
+					r.OK("C19-R14", key, tc.Pos(), "the predicate answers true only for context.Canceled")
+				default:
+					r.Bad("C19-R14", key, tc.Pos(), "a test other than errors.Is(err, context.Canceled) can excuse the relay's error: a backend that resets the connection mid-body is then recorded as a success (and the attempt returns nil)")
+				}
+			}
+		})
+	}
+	if n == 0 {
+		r.Undecided("C19-R14", "stream-error-tests", token.NoPos, "no boolean test of the relay's error found in the per-attempt functions")
+	}
+	addMutants(Mutant{Prop: "C19", Name: "reset-excused-as-client-disconnect", File: "internal/adapter/proxy/olla/service_retry.go", Rule: "C19-R14",
+		Old: "	if streamErr != nil && !errors.Is(streamErr, context.Canceled) {", New: "	if streamErr != nil && !errors.Is(streamErr, context.Canceled) && !errors.Is(streamErr, syscall.ECONNRESET) {",
+		Edits: []Edit{{"internal/adapter/proxy/olla/service_retry.go", "	\"net/http\"\n", "	\"net/http\"\n	\"syscall\"\n"}}})
+}
